@@ -26,7 +26,7 @@ void do_plan(int tier)
   (void)tier;
   unsigned m = sim_plan(10);
   plan.mode = m < 4 ? 0 : (m < 9 ? 1 : 2);
-  plan.elem = (int)sim_plan(5);
+  plan.elem = (int)sim_plan(7);
   plan.nops = 1 + (int)sim_plan(A14_MAXOPS);
   bool big_dance = plan.mode == 0 && sim_plan(3) == 0;
   if (big_dance)
@@ -76,7 +76,7 @@ int stuck(int, char *cls, size_t n)
 void describe(char *buf, size_t n)
 {
   static const char *vn[] = {"push_back", "resize", "resize(val)", "reserve", "shrink_to_fit", "assign", "insert", "erase", "swap", "clear", "pop_back", "copy"};
-  static const int es[] = {1, 4, 12, 16, 64};
+  static const int es[] = {1, 4, 12, 16, 64, 32, 32};  // 5: struct with a std::string, 6: value class constructible from a list of itself
   int k;
   if (plan.mode == 0) {
     k = snprintf(buf, n, "{\"mode\": \"alignedMalloc/alignedFree history\", \"fail_allocation_no\": %ld, \"ops\": [", plan.fail_at);
